@@ -22,7 +22,10 @@ def cstring(body):
     out = bytearray()
     i = 0
     while i < len(body):
-        if body[i] == '\\':
+        if body[i] == '\\' and body[i + 1] == '\\':
+            out.append(0x5c)
+            i += 2
+        elif body[i] == '\\':
             out.append(int(body[i + 1:i + 3], 16))
             i += 3
         else:
@@ -33,7 +36,7 @@ def cstring(body):
 
 def parse(text):
     strings = {}
-    for m in re.finditer(r'^(' + SYM + r') = private unnamed_addr constant \[(\d+) x i8\] c"((?:[^"\\]|\\[0-9A-Fa-f]{2})*)"', text, re.M):
+    for m in re.finditer(r'^(' + SYM + r') = private unnamed_addr constant \[(\d+) x i8\] c"((?:[^"\\]|\\[0-9A-Fa-f]{2}|\\\\)*)"', text, re.M):
         strings[m.group(1)] = cstring(m.group(3))
 
     def sval(m, g):
